@@ -1,55 +1,37 @@
-#!/usr/bin/env python3
-"""Regenerate MANIFEST.json from the table below (single source of truth for the interface)."""
+#!/venv/bin/python
+"""Regenerate MANIFEST.json from the property modules (single source of truth for the interface).
+
+A property is *claimed* when its module ``ztv/props/cNN.py`` exists and its PROP has ``registered = True``;
+everything else is listed under not_applicable with the reason given in NOT_CLAIMED (or a default).
+"""
 import json
 import os
+import sys
 
 HERE = os.path.dirname(os.path.dirname(os.path.abspath(__file__)))
+sys.path.insert(0, HERE)
+from ztv import boot  # noqa: E402
 
-# id -> (technique, level text, level note, design ref)
-CHECKS = {
-    'C01': ('Hypothesis-generated layer DAGs/faults/options run through the real Runner (children are real '
-            'runner processes); stack invariant over the pid-tagged hook trace and over the printed lines',
-            'Generated layer graphs (single/multiple inheritance, class/instance, any hook subset), fault placements '
-            '(setUp/tearDown exception, NotImplementedError) and option sets (--layer,-x,--repeat,--shuffle,-j) are '
-            'run; a state invariant (set-up set == test closure, bases before, derived torn down first, exactly one '
-            'tear-down attempt, nothing after NotImplementedError, remaining layers in fresh processes) is checked at '
-            'every event of every process.',
-            'Trusts the world runtime to log hooks faithfully; hook-less layers are only observed through the '
-            'runner\'s own Set up/Tear down lines; MemoryError/EndRun paths are not driven.',
-            'DESIGN.md 3 (C01)'),
-    'C08': ('exhaustive small pattern pool + Hypothesis pattern lists vs. algebraic spec; metamorphic laws; '
-            'end-to-end generated worlds with -t/-m/--layer/legacy filters',
-            'build_filtering_func is compared pointwise with the three-line spec over generated pattern lists and '
-            'names, with permutation/duplication invariance and the two monotonicity laws; end to end the executed '
-            'tests, imported modules and layers run of generated worlds must equal what the spec selects.',
-            'Trusts re.search as matcher; empty pattern lists (never fed by the runner) are not asserted.',
-            'DESIGN.md 3 (C08)'),
-    'C20': ('exhaustive small-scope enumeration + Hypothesis random graphs vs. reachability-closure oracle',
-            'Every digraph on <=4 nodes (with self-loops) is enumerated in several insertion orders / node kinds / '
-            'call patterns and compared with an independent reference partition; Hypothesis graphs of 5..14 nodes '
-            'extend this beyond the bound. Exhaustive inside the bound, sampled beyond.',
-            'Trusts the Warshall-closure reference implementation in ztv/props/c20.py and CPython set/dict semantics.',
-            'DESIGN.md 3 (C20)'),
-    'C05': ('Hypothesis-generated worlds run in-process; bracket/balance invariant over the hook trace',
-            'Generated layer DAGs with per-test hooks on any subset and histories of tests of every outcome kind '
-            '(incl. --repeat/--shuffle) are run through the real Runner; an invariant over the pid-tagged trace '
-            'checks once-per-layer, bases-first, mirrored tear-down and per-layer balance at every event.',
-            'Trusts the world runtime (ztv/runtime.py) to log the layer a hook is called on; only Python 3.12.1 '
-            'behaviour of unittest is exercised.',
-            'DESIGN.md 3 (C05)'),
-}
+boot.bootstrap()
+from ztv import engine  # noqa: E402
 
-NOT_YET = {}
-
+NOT_CLAIMED = {}
 ALL = ['C%02d' % i for i in range(1, 21)]
 
 
 def main():
     checks = []
+    na = []
     for pid in ALL:
-        if pid not in CHECKS:
+        try:
+            prop = engine.load_prop(pid)
+        except ImportError:
+            prop = None
+        if prop is None or not getattr(prop, 'registered', False):
+            na.append({'property_id': pid, 'reason': NOT_CLAIMED.get(
+                pid, 'check not built yet (work in progress); DESIGN.md describes the planned generated check and it '
+                     'will be registered as soon as it is quiet on the unchanged tree')})
             continue
-        tech, text, note, ref = CHECKS[pid]
         checks.append({
             'property_id': pid,
             'quick_cmd': './check %s quick' % pid,
@@ -57,14 +39,11 @@ def main():
             'evidence_file': 'evidence/%s.json' % pid,
             'replay_cmd_template': './check %s --replay {path}' % pid,
             'engine': 'ztv',
-            'level_claimed': {'category': 'exploration', 'text': text, 'design_ref': ref},
-            'level_note': note,
-            'technique': tech,
+            'level_claimed': {'category': prop.level, 'text': prop.level_text,
+                              'design_ref': 'DESIGN.md 3 (%s)' % pid},
+            'level_note': prop.level_note,
+            'technique': prop.technique,
         })
-    na = [{'property_id': pid, 'reason': NOT_YET.get(pid, 'check not built yet in this session (work in progress); '
-                                                       'the design in DESIGN.md claims it and it will be registered '
-                                                       'as soon as its check is quiet on the unchanged tree')}
-          for pid in ALL if pid not in CHECKS]
     manifest = {
         'version': 1,
         'setup_cmd': '/venv/bin/python -c "import hypothesis" 2>/dev/null || /venv/bin/pip install --no-index '
@@ -94,6 +73,7 @@ def main():
     with open(os.path.join(HERE, 'MANIFEST.json'), 'w') as f:
         json.dump(manifest, f, indent=1)
         f.write('\n')
+    print('claimed:', [c['property_id'] for c in checks])
 
 
 if __name__ == '__main__':
